@@ -5,3 +5,6 @@ package exec
 
 // verifManagerLoop is a no-op unless built with the tag "verif".
 func verifManagerLoop(*machineManager, *machineQ, *machineFailureQ, int, int) {}
+
+// verifCombineProbe is a no-op unless built with the tag "verif".
+func verifCombineProbe(try, cap int) {}
